@@ -12,6 +12,7 @@ import Driver.Ast
 import Driver.Wire
 import Mdsort.Model.Main
 import Mdsort.Model.Plan
+import Mdsort.Model.Inspect
 import Mdsort.Spec.Rules
 import Mdsort.Spec.Interp
 import Mdsort.Proofs.Interp
@@ -204,7 +205,12 @@ def handleEval (args : List Bytes) : String :=
         | .match =>
           match Model.matchesInterpolate env st.ml msgs with
           | none => s!"MATCH {ml1} {fl} INTERR"
-          | some (ml2, msgs2) => s!"MATCH {ml1} {fl} {String.intercalate ";" (ml2.map matchDump)} {dumpTable (msgs2 0)}"
+          | some (ml2, msgs2) =>
+            -- harness layout: <tdir>/<maildir>/<subdir>/<name>, HOME = <tdir>, configuration = <tdir>/conf
+            let comps := path.splitOn 47
+            let tdir : Bytes := (List.intersperse [47] (comps.take (comps.length - 3))).flatten
+            let dryText := if env.dryrun then " " ++ toHex (Model.matchesInspect Model.widthC tdir (tdir ++ ofString "/conf") false true path ml2) else ""
+            s!"MATCH {ml1} {fl} {String.intercalate ";" (ml2.map matchDump)} {dumpTable (msgs2 0)}{dryText}"
         | t => s!"{triName t} {ml1} {fl}"
   | _ => "BADOP"
 
